@@ -36,6 +36,18 @@ type permOp struct {
 	Api    int     `json:"api,omitempty"` // 0 SafeCmdExecution 1 CmdSensor.GetValue 2 CmdFan.GetPwm 3 CmdFan.SetPwm 4 CmdFan.GetRpm 5 initializeSensors (cmd sensor no curve uses)
 	Cfg    string  `json:"cfg,omitempty"` // create: write this configuration variant instead of a script; validate: the loaded variant
 	During *permOp `json:"during,omitempty"` // execduring: performed by a helper while the first started command is running
+	// how the executable is named in the call (the harness process has chdir'ed into its work directory):
+	// "" absolute | "dir" c<n>/f<p> | "dot" ./c<n>/f<p> | "dotdot" c<n>/../c<n>/f<p> | "bare" c<n>_f<p> (p lives in the cwd)
+	Form string `json:"form,omitempty"`
+	// exec: plant a decoy (owner 4242, mode 0777, id 9000+p) where a wrong resolution of the relative path would
+	// look: c<n>/c<n>/f<p> (relative to the directory of the executable instead of the working directory)
+	Decoy bool `json:"decoy,omitempty"`
+	// exec with form "bare": the id of the file of that name in $PATH (0 = none)
+	InPath int `json:"inpath,omitempty"`
+	// create / symlink: where the name lives: "" the case directory | "cwd" the working directory (c<n>_f<p>) |
+	// "path" the harness's private $PATH directory, under the bare name of id As (c<n>_f<As>)
+	Where string `json:"where,omitempty"`
+	As    int    `json:"as,omitempty"`
 }
 type permIn struct {
 	Failing []int    `json:"failing,omitempty"` // ids whose script exits 1 (after waiting for the helper, when one is armed)
@@ -358,7 +370,44 @@ func runPerm(workDir string, n int, in permIn) ([]permObs, string) {
 		panic(err)
 	}
 	defer os.RemoveAll(dir)
-	pathOf := func(id int) string { return filepath.Join(dir, "f"+itoa(id)) }
+	// where every id lives (fixed by the first create/symlink operation that names it)
+	loc := map[int]string{}
+	for _, op := range in.Ops {
+		if (op.K == "create" || op.K == "symlink") && op.Where != "" {
+			switch op.Where {
+			case "cwd":
+				loc[op.P] = filepath.Join(workDir, "c"+itoa(n)+"_f"+itoa(op.P))
+			case "path":
+				loc[op.P] = filepath.Join(workDir, "pathdir", "c"+itoa(n)+"_f"+itoa(op.As))
+			}
+		}
+	}
+	defer func() {
+		for _, p := range loc {
+			os.Remove(p)
+		}
+	}()
+	pathOf := func(id int) string {
+		if p, ok := loc[id]; ok {
+			return p
+		}
+		return filepath.Join(dir, "f"+itoa(id))
+	}
+	rel := "c" + itoa(n)
+	// the name handed to the code under test
+	nameOf := func(op permOp) string {
+		switch op.Form {
+		case "dir":
+			return rel + "/f" + itoa(op.P)
+		case "dot":
+			return "./" + rel + "/f" + itoa(op.P)
+		case "dotdot":
+			return rel + "/../" + rel + "/f" + itoa(op.P)
+		case "bare":
+			return "c" + itoa(n) + "_f" + itoa(op.P)
+		}
+		return pathOf(op.P)
+	}
 	marker := filepath.Join(dir, "marker")
 	armFile, flagFile := filepath.Join(dir, "arm"), filepath.Join(dir, "flag")
 	must := func(err error) {
@@ -438,7 +487,23 @@ func runPerm(workDir string, n int, in permIn) ([]permObs, string) {
 		switch op.K {
 		case "exec", "execduring":
 			os.Remove(marker)
-			o := permObs{Stat: permResolveStat(p)}
+			if op.Decoy {
+				dd := filepath.Join(dir, rel)
+				must(os.MkdirAll(dd, 0o755))
+				dp := filepath.Join(dd, "f"+itoa(op.P))
+				permFsMu.Lock()
+				werr := os.WriteFile(dp, []byte(script(9000+op.P)), 0o600)
+				permFsMu.Unlock()
+				must(werr)
+				must(os.Chown(dp, 4242, 4242))
+				must(syscall.Chmod(dp, 0o777))
+			}
+			statPath := p
+			if op.Form == "bare" && op.InPath != 0 {
+				statPath = pathOf(op.InPath)
+			}
+			p = nameOf(op)
+			o := permObs{Stat: permResolveStat(statPath)}
 			stop := make(chan struct{})
 			helperDone := make(chan struct{})
 			if op.K == "execduring" {
@@ -486,6 +551,12 @@ func runPerm(workDir string, n int, in permIn) ([]permObs, string) {
 			obs = append(obs, o)
 			if op.K == "execduring" {
 				coqOps = append(coqOps, cRec("OpExecDuring", cZ(op.Api), cZ(op.P), coqFs(*op.During)))
+			} else if op.Form == "bare" {
+				q := "None"
+				if op.InPath != 0 {
+					q = cRec("Some", cZ(op.InPath))
+				}
+				coqOps = append(coqOps, cRec("OpExecBare", cZ(op.Api), cZ(op.P), q))
 			} else {
 				coqOps = append(coqOps, cRec("OpExec", cZ(op.Api), cZ(op.P)))
 			}
@@ -536,6 +607,15 @@ func init() {
 		if os.Geteuid() != 0 {
 			panic("perm driver must run as root (chown to uid/gid 4242)")
 		}
+		// relative executable names are resolved against the working directory: make it the work directory; a private
+		// directory in front of $PATH receives the files a bare command name may be resolved to
+		if err := os.Chdir(ctx.WorkDir); err != nil {
+			panic(err)
+		}
+		if err := os.MkdirAll(filepath.Join(ctx.WorkDir, "pathdir"), 0o755); err != nil {
+			panic(err)
+		}
+		os.Setenv("PATH", filepath.Join(ctx.WorkDir, "pathdir")+":"+os.Getenv("PATH"))
 		var jobs []permJob
 		add := func(tags []string, ops ...permOp) {
 			jobs = append(jobs, permJob{permIn{Ops: ops}, tags})
@@ -702,6 +782,40 @@ func init() {
 						}
 					}
 				}
+			}
+			// (d3) the executable named by a RELATIVE path (resolved against the working directory by the check and by
+			// os/exec alike) with a hostile decoy where a different resolution would look, and by a BARE command name
+			// (os/exec searches $PATH, never the working directory)
+			for api := 0; api <= 5; api++ {
+				for _, form := range []string{"dir", "dot", "dotdot"} {
+					for _, a := range [][3]int{{0, 0, 0o755}, {4242, 0, 0o755}, {0, 0, 0o757}, {0, 4242, 0o775}, {0, 0, 0o644}} {
+						for _, decoy := range []bool{true, false} {
+							tags := []string{"relative", "form=" + form, "api=" + itoa(api)}
+							if decoy {
+								tags = append(tags, "decoy")
+							}
+							add(tags, create(1, a[0], a[1], a[2]), permOp{K: "exec", P: 1, Api: api, Form: form, Decoy: decoy})
+							add(append(tags, "via-symlink"), create(1, a[0], a[1], a[2]), link(2, 1), permOp{K: "exec", P: 2, Api: api, Form: form, Decoy: decoy})
+						}
+					}
+				}
+				for _, a := range [][3]int{{0, 0, 0o755}, {4242, 0, 0o755}, {0, 0, 0o757}} {
+					cwdLink := permOp{K: "symlink", P: 2, T: 1, Where: "cwd"}
+					bare := func(inpath int) permOp { return permOp{K: "exec", P: 2, Api: api, Form: "bare", InPath: inpath} }
+					tags := []string{"relative", "form=bare", "api=" + itoa(api)}
+					// nothing of that name in $PATH
+					add(append(tags, "path=none"), create(1, a[0], a[1], a[2]), cwdLink, bare(0))
+					// a file of another user / a root-controlled file of that name in $PATH
+					add(append(tags, "path=hostile"), create(1, a[0], a[1], a[2]), cwdLink,
+						permOp{K: "create", P: 3, U: 4242, G: 4242, M: 0o777, Where: "path", As: 2}, bare(3))
+					add(append(tags, "path=root"), create(1, a[0], a[1], a[2]), cwdLink,
+						permOp{K: "create", P: 3, U: 0, G: 0, M: 0o755, Where: "path", As: 2}, bare(3))
+				}
+				// only in $PATH, nothing in the working directory
+				add([]string{"relative", "form=bare", "api=" + itoa(api), "path=only"},
+					permOp{K: "create", P: 3, U: 0, G: 0, M: 0o755, Where: "path", As: 2}, permOp{K: "exec", P: 2, Api: api, Form: "bare", InPath: 3})
+				add([]string{"relative", "form=bare", "api=" + itoa(api), "path=only-hostile"},
+					permOp{K: "create", P: 3, U: 0, G: 4242, M: 0o775, Where: "path", As: 2}, permOp{K: "exec", P: 2, Api: api, Form: "bare", InPath: 3})
 			}
 			// (e) ownership / mode / link target changed between consecutive calls
 			nFlip := ctx.Param("flips", 400)
